@@ -145,6 +145,32 @@ CLAIMS = {
              "_deal_with_insertion and _expand_logic raise CuckooFilterFullError with entries held only in locals, in both contexts. "
              "Does not decide that an expansion into a larger table always succeeds.",
         design_ref="DESIGN.md section 4 C03, section 5 D6, E7"),
+    "C08": dict(
+        technique="normal-form agreement of cell addressing under checked lemmas; ordering-set guards; weighted ownership analysis of bins",
+        text="Structural part: counting Bloom add/remove/check address hash mod number-of-positions over the key's hash list (lemma "
+             "bloom_length = number_bits checked on every construction path); add and remove walk the same index list with amounts "
+             "num_els and min(num_els, minimum); remove's no-op exits are guarded exactly by minimum == 0 / == limit before any store. "
+             "Counting cuckoo: every bin built for a held entry carries that entry's count (new key: the caller's count, also on the "
+             "eviction path; kicked bin: its own), expansion re-inserts each bin with its own count, a present key's add increments "
+             "its bin, remove decrements / drops at zero / is a no-op returning False when absent. Counts under collisions are not decided.",
+        design_ref="DESIGN.md section 4 C08"),
+    "C14": dict(
+        technique="pairing and delta agreement between storage events and counter updates per enumerated path; ownership weights; formula conformance",
+        text="Structural part: per mutator path the element counter is updated exactly when storage changes and by the matching amount "
+             "for all seven structures (table in DESIGN.md section 4 C14), incl. cuckoo success exits (+weight of the entry that entered), "
+             "removals, recount on expansion and load, quotient +1/-1/0/reset; load factors read the counter; estimate_elements and "
+             "current_false_positive_rate conform to the standard formulas and set-operation results take the estimate. Agreement with "
+             "an external model of the history is not decided.",
+        design_ref="DESIGN.md section 4 C14"),
+    "C15": dict(
+        technique="guard dominance by ordering sets on every bucket-level append; candidate relation from the ownership analysis; who-may-write",
+        text="Structural part: every append of an entry to a bucket is dominated by len(bucket) < bucket_size (or sits in a loader loop over "
+             "range(bucket_size)); every sink goes to a candidate bucket of the entry sunk and the eviction loop recomputes the next "
+             "index from the entry now in hand; callers pass an entry with its own candidate indices; insertion only on the not-present "
+             "branch; counting bins are never built with a possibly-zero count and a decrement is followed by the ==0 -> remove test; "
+             "capacity is written only by constructor/loaders and as capacity * expansion_rate. Tables loaded from foreign files are "
+             "outside the claim.",
+        design_ref="DESIGN.md section 4 C15"),
 }
 
 NA_DEFAULT = "check not built yet (build phase in progress; DESIGN.md section 4 gives the planned rule)"
